@@ -251,7 +251,7 @@ class Check:
         funcs = {}
         labels = {}
         samples = list(self.samples)
-        tot = dict(paths=0, nontriv=0, steps=0, oblig=0, disch=0, queries=0, stime=0.0, ifconv=0, aborted=0)
+        tot = dict(paths=0, nontriv=0, steps=0, oblig=0, disch=0, queries=0, stime=0.0, ifconv=0, aborted=0, fb=0)
         reordered = set()
         for (j, jr, c) in self.jobs:
             tot['paths'] += jr['paths']
@@ -263,6 +263,7 @@ class Check:
             tot['stime'] += jr['solver_time_s']
             tot['ifconv'] += jr['ifconverted']
             tot['aborted'] += jr['aborted_paths']
+            tot['fb'] += jr.get('cvc5_fallbacks', 0)
             for f, n in (jr.get('functions') or {}).items():
                 funcs[f] = funcs.get(f, 0) + n
             for l, s in (jr.get('labels') or {}).items():
@@ -285,7 +286,8 @@ class Check:
             'rule': rule,
             'obligations': tot['oblig'], 'discharged': tot['disch'],
             'solver_queries': tot['queries'], 'solver_time_s': round(tot['stime'], 3),
-            'solver': 'z3 4.8.12 (-in, one scope per path)',
+            'solver': 'z3 4.8.12 (-in, one scope per path); unknown answers are retried on cvc5 1.0 --solve-bv-as-int=sum',
+            'cvc5_fallback_unsat': tot['fb'],
             'ifconverted_branches': tot['ifconv'], 'aborted_paths': tot['aborted'],
             'functions_encoded': dict(sorted(under_test.items())),
             'functions_encoded_total': len(funcs),
